@@ -899,8 +899,13 @@ def _degenerate(st, r):
         if op == "slice" and st.eq(as_poly(r[2]), 0) and st.eq(as_poly(r[3]), t_len(r[1])):
             return r[1]
         if op == "slice" and r[1][0] == "gather":
-            # a window of a re-indexing = the re-indexing along the window of the indices
-            return mk_gather(st, r[1][1], _degenerate(st, ("slice", r[1][2], r[2], r[3])))
+            # a window of a re-indexing = the re-indexing along the window of the indices: the same normal form as
+            # composing with the injection arange(lo, hi)
+            inner = _degenerate(st, ("slice", r[1][2], r[2], r[3]))
+            if inner[0] == "slice":
+                inner = ("arange", as_poly(r[2]), as_poly(r[3]))
+                return mk_gather(st, r[1], inner)
+            return mk_gather(st, r[1][1], inner)
         if op == "slice" and r[1][0] == "arange":
             return ("arange", as_poly(r[1][1]) + as_poly(r[2]), as_poly(r[1][1]) + as_poly(r[3]))
         if op == "slice" and r[1][0] == "shift":
@@ -922,6 +927,8 @@ def _degenerate(st, r):
                     i += 1
                 if st.eq(off, hi):
                     return mk_concat(acc)
+            # not a run of whole parts: the normal form of composing with the injection arange(lo, hi)
+            return mk_gather(st, r[1], ("arange", lo, hi))
         if op == "repeat" and r[1][0] == "fill" and st.eq(as_poly(r[1][1]), 1):
             return r[2]         # every element repeated once
         if op == "lmap" and isinstance(r[2], tuple) and len(r[2]) == 3 and r[2][0] == "rec":
